@@ -140,6 +140,8 @@ def is_sequence(string):
 
 
 def remove_constructed(string):
+    if not string:
+        raise UnexpectedDER("Empty string does not encode a constructed tag")
     s0 = str_idx_as_int(string, 0)
     if (s0 & 0xE0) != 0xA0:
         raise UnexpectedDER(
@@ -166,6 +168,8 @@ def remove_sequence(string):
 
 
 def remove_octet_string(string):
+    if not string:
+        raise UnexpectedDER("Empty string does not encode an octet string")
     if string[:1] != b"\x04":
         n = str_idx_as_int(string, 0)
         raise UnexpectedDER("wanted type 'octetstring' (0x04), got 0x%02x" % n)
@@ -242,6 +246,8 @@ def remove_integer(string):
 def read_number(string):
     number = 0
     llen = 0
+    if not string:
+        raise UnexpectedDER("ran out of length bytes")
     if str_idx_as_int(string, 0) == 0x80:
         raise UnexpectedDER("Non minimal encoding of OID subidentifier")
     # base-128 big endian, with most significant bit set in all but the last
@@ -347,6 +353,8 @@ def remove_bitstring(string, expect_unused=_sentry):
     body = string[1 + llen : 1 + llen + length]
     rest = string[1 + llen + length :]
     if expect_unused is not _sentry:
+        if not body:
+            raise UnexpectedDER("Length longer than the provided buffer")
         unused = str_idx_as_int(body, 0)
         if not 0 <= unused <= 7:
             raise UnexpectedDER("Invalid encoding of unused bits")
